@@ -625,6 +625,17 @@ def registry_hygiene(ctx, rid: str) -> None:
                     removes.append(n)
         registers = [s for f in r.funcs for s in ctx.r.callsites(f, v) if s.callee_text.endswith("_register_in_system")]
         c.floor(rid, f"registry registrations ({v})", len(registers), 1)
+        # a removal must be conditional on the entry still being this interpreter (systemIds can be re-used:
+        # a later actor replaces an earlier one under the same name)
+        for f in clo.values():
+            for n in own_nodes(f.node):
+                if n in removes:
+                    owned = any((cp := compare_parts(a)) is not None and isinstance(cp[1], ast.Is) and pol and "self" in (norm(cp[0]), norm(cp[2]))
+                                for a, pol in guards_at(f, n))
+                    c.ob(rid, owned, f, f"{v}:registry-removal-checks-owner",
+                         "a registry entry is removed only if it still refers to this interpreter" if owned else
+                         f"'{stmt_text(n)}' removes a systemId entry without checking that it still refers to this interpreter: after the id was "
+                         f"re-used by a newer actor, stopping the older one unregisters the live one", n)
         ok = bool(removes)
         c.ob(rid, ok, r.stop, "stop-cleans-registry",
              "stop() removes this interpreter's systemId registrations" if ok else
